@@ -7,7 +7,6 @@ implementation actually used is recorded by wrapping DataFrame.sort_values from 
 of the call (no source hook) and handed to the model, whose theorems hold for every sorting order."""
 from collections import Counter
 from fractions import Fraction as Fr
-from itertools import combinations
 import copy
 import math
 
@@ -38,22 +37,29 @@ ASSUMPTIONS = [
 ]
 TRUSTED = ["harness-side snapshot comparison for input immutability (pandas .equals + labels + dtypes)"]
 MANIFEST = dict(
-    text="Machine-checked theorems (Coq 8.16.1) about an executable Gallina model of hitsound_copy on lists of note records "
-         "(filter, any sorting order of ties, bit split, group by offset then volume, ';'-join/split, slot filling, overflow to "
-         "event samples, re-split by NaN length): for ALL pairs of charts and every tie order the result has exactly the "
-         "target's notes; under the stated guards every carried sound was in the source at that time with multiplicity, as "
-         "many notes sound as min(demand, notes) and everything is copied when it fits, and named samples are conserved; "
-         "the unguarded statements are refuted in Coq with concrete witnesses (three known defects of the pinned tree). "
-         "The boolean oracle specb is proved sound for the declarative multiset specification and is evaluated in Coq on the "
-         "implementation's output for every generated pair; the model is tied to the code by in-Coq correspondence.",
+    text="Machine-checked theorems (Coq 8.16.1) about an executable Gallina model of hitsound_copy as repaired (reset before the "
+         "target frame is built, overflowing named samples all become event samples) on lists of note records (filter, any "
+         "sorting order of ties, bit split, group by offset then volume, ';'-join/split, slot filling, overflow, re-split by NaN "
+         "length).  Proved for ALL pairs of charts in the domain (source volumes >= 0, 16-bit hitsound sets, holds with a length) "
+         "and every tie order: the result has exactly the target's notes (C18_notes_preserved); and, when no source file name "
+         "contains ';' (C18_spec = C18_no_invention + C18_bounded + C18_named_conserved): every sound carried was in the source at "
+         "that time with multiplicity, per time min(demand, notes) notes sound and everything is on the notes when it fits, every "
+         "named sample of the source is on a note or an event sample.  The ';' case is refuted with a witness (known finding); the "
+         "behaviour before the two repairs is refuted on the OLD model.  The boolean oracle specb is proved sound and complete for "
+         "the declarative multiset specification and is evaluated in Coq on the implementation's output for every generated pair; "
+         "the model is tied to the code by in-Coq correspondence.  'Neither input is modified' is a harness snapshot comparison, "
+         "not a theorem.",
     note="Trusted: Coq kernel+VM, harness generator/serialiser, sort-order recorder, snapshot comparison for input immutability. "
-         "Known findings (exit 0, reported): named-sample-overflow-break, target-hitsounds-kept, named-sample-semicolon-split.",
+         "Known finding: named-sample-semicolon-split.  Fixed (regressions raise): named-sample-overflow-break (19e0cd1), "
+         "target-hitsounds-kept (a52f30c).",
     technique="Coq proof over executable model + vm_compute correspondence against the implementation",
     design="4/C18")
 
-KEY_LEAK = "target-hitsounds-kept"
-KEY_SEMI = "named-sample-semicolon-split"
-KEY_BREAK = "named-sample-overflow-break"
+KEY_SEMI = "named-sample-semicolon-split"      # the only remaining known finding
+# labels of input classes (evidence distribution only); the defects they used to trigger are fixed:
+# named-sample-overflow-break by /repo 19e0cd1, target-hitsounds-kept by /repo a52f30c
+KEY_LEAK = "loud-target"
+KEY_BREAK = "multi-named-overflow"
 
 FILES = ["a.wav", "b.wav", "c.wav", "d.ogg", "soft-hitclap2.wav", "x y.wav"]
 SEMI = ["a;b.wav", ";", "c.wav;", ";;z", "p;q;r"]
@@ -529,20 +535,16 @@ def _classes(case):
     return cl
 
 
-ORDER = [KEY_BREAK, KEY_SEMI, KEY_LEAK]
-
-
 def classify(case, out, kind):
-    """A violation is attributed to known defect classes only when the input is in those classes AND the output
-    satisfies every part of the specification once exactly those defects are discounted; anything else -> None."""
+    """Only the ';' split is a known defect now.  A violation is attributed to it only when a source name contains
+    ';' AND the output satisfies every part of the specification once the pieces of such names are counted as the
+    source's samples; anything else (including a regression of the two repaired defects) -> None -> VIOLATION."""
     if kind != "spec" or out.get("v") is None or not in_domain(case):
         return None
-    cl = _classes(case)
-    for r in range(1, len(cl) + 1):
-        for sub in combinations(cl, r):
-            comp = components(case, out, leak=KEY_LEAK in sub, split=KEY_SEMI in sub, brk=KEY_BREAK in sub)
-            if all(comp.values()):
-                return "+".join(k for k in ORDER if k in sub)
+    if not any(";" in n["f"] for n in _all(case["src"])):
+        return None
+    if all(components(case, out, split=True).values()):
+        return KEY_SEMI
     return None
 
 
@@ -581,7 +583,7 @@ def describe(case, out):
             f"failing parts={[k for k, v in comp.items() if not v]}")
 
 
-def _cands(case):
+def shrink(case):
     for side in ("src", "tgt"):
         for lst in ("hits", "holds", "samples"):
             for i in range(len(case[side][lst])):
@@ -597,21 +599,3 @@ def _cands(case):
                         c[side][lst][i][fld] = 0
                         yield c
 
-
-def shrink(case):
-    """Candidates one step smaller.  When the case is a violation that is NOT one of the known defect classes, only
-    candidates that still are such a violation are offered (so that shrinking cannot drift into a known finding)."""
-    try:
-        out = execute(case)
-        unknown = py_oracle(case, out) is False and classify(case, out, "spec") is None
-    except Exception:
-        unknown = False
-    for c in _cands(case):
-        if unknown:
-            try:
-                o = execute(c)
-                if not (py_oracle(c, o) is False and classify(c, o, "spec") is None):
-                    continue
-            except Exception:
-                continue
-        yield c
